@@ -57,7 +57,7 @@ func init() {
 	})
 }
 
-var soupRestrict = wprog.Restrict{MaxOps: 10, MaxBody: 3000, NoWriterGet: true}
+var soupRestrict = wprog.Restrict{MaxOps: 10, MaxBody: 3000, NoWriterGet: true, HostileStreams: true}
 
 var keyPat = regexp.MustCompile(`/(Length|Prev|Size|N|First|Count|Columns|Predictor|Colors|BitsPerComponent|Width|Height|Length1|Length2|Length3|Rows|K)[ \r\n]+(-?[0-9]+)`)
 var refPat = regexp.MustCompile(`([0-9]+) ([0-9]+) R\b`)
